@@ -9,19 +9,19 @@ HOOK_COMMITS = subprocess.run(
 ).stdout.split()
 
 P = {
- "C01": ("exploration", "4 C01", "differential round-trip monitor (reference model + entry-point equivalence)",
-         "Every generated (shape, value) is encoded through all encode entry points and decoded through all decode entry points of the real crate; a monitor compares decoded value (floats bitwise), consumed length and remainder pointer. Whole domains for bool/u8/i8/u16/i16/char (and u32/i32/f32 in the thorough tier), every power-of-two boundary of the wide integers, random shape trees over all 29 serde kinds and ~75 concrete Rust types. Exploration, not proof: values of 64/128-bit types and deep shapes are sampled.",
+ "C01": ("exploration", "4 C01", "differential round-trip monitor (reference model + entry-point equivalence); Miri i686 stage in thorough",
+         "Every generated (shape, value) is encoded through all encode entry points and decoded through all decode entry points of the real crate; a monitor compares decoded value (floats bitwise), consumed length and remainder pointer. Whole domains for bool/u8/i8/u16/i16/char (and u32/i32/f32 in the thorough tier), every power-of-two boundary of the wide integers, random shape trees over all 29 serde kinds and ~75 concrete Rust types; text that reaches the encoder through collect_str (write_str and write_char pieces, fmt::Arguments) and never-materialised sequences of 2^32+-k zero-sized elements round-trip as well. Exploration, not proof: values of 64/128-bit types and deep shapes are sampled. A lean workload is also interpreted by Miri for a 32-bit target (i686; stage miri32), where length prefixes are 32-bit varints. (thorough)",
          "Trusts the harness's run-time serde bridge (cross-checked by the Recorder) and the reference encoder used to build corpus values."),
- "C02": ("exploration", "4 C02", "differential monitor against an independent reference encoder written from wire-format.md",
-         "Byte-for-byte comparison of the real encoder's output with a reference encoder written from the specification and validated against every table of the specification at start-up; plus direct canonical-varint assertion, unknown-length refusal, collect_str, usize/isize and rename-metamorphic monitors. Same domains as C01.",
+ "C02": ("exploration", "4 C02", "differential monitor against an independent reference encoder written from wire-format.md; Miri i686 stage in thorough",
+         "Byte-for-byte comparison of the real encoder's output with a reference encoder written from the specification and validated against every table of the specification at start-up; plus direct canonical-varint assertion, unknown-length refusal, collect_str (write_str and write_char pieces), skip_field, count prefixes of every magnitude, usize/isize and rename-metamorphic monitors. Same domains as C01. A lean workload is also interpreted by Miri for a 32-bit target (i686; stage miri32), where length prefixes are 32-bit varints. (thorough)",
          "Trusts the reference encoder (validated against 33 table rows of spec/src/wire-format.md on every run)."),
- "C03": ("exploration", "4 C03", "differential monitor against an independent reference decoder; exhaustive short byte strings",
-         "Accept/reject, value, consumed length, remainder identity and error kind of the real decoder are compared with a reference decoder written from the specification on every byte string of length <= 3 (quick) / <= 4 (thorough) for the 16-bit varint decoders, all short strings for bool/u8/i8/options, boundary-structured strings for the wider varints, and valid/prefix/corrupted/re-padded/random inputs for random and concrete shapes.",
+ "C03": ("exploration", "4 C03", "differential monitor against an independent reference decoder; exhaustive short byte strings; Miri i686 stage",
+         "Accept/reject, value, consumed length, remainder identity and error kind of the real decoder are compared with a reference decoder written from the specification on every byte string of length <= 3 (quick) / <= 4 (thorough) for the 16-bit varint decoders, all short strings for bool/u8/i8/options, boundary-structured strings for the wider varints, and valid/prefix/corrupted/re-padded/random inputs for random and concrete shapes. A lean workload is also interpreted by Miri for a 32-bit target (i686; stage miri32), where length prefixes are 32-bit varints. (quick and thorough: length prefixes 2^32-1, 2^32, over-long paddings against the reference decoder parametrised by the pointer width)",
          "Trusts the reference decoder (validated against the canonicalization and max-length tables of the specification)."),
- "C04": ("exploration", "4 C04", "guard pages + counting allocator + panic monitor + Miri (+ASan and valgrind memcheck in thorough)",
+ "C04": ("exploration", "4 C04", "guard pages + counting allocator + panic monitor + Miri for x86-64 and i686 (+ASan and valgrind memcheck in thorough)",
          "Hostile inputs (mutated-valid, random, adversarial length prefixes up to usize::MAX) are decoded with the input flush against PROT_NONE pages on either side, under catch_unwind, with a thread-local counting allocator enforcing the allocation bound and pointer-range monitors on every borrowed str/bytes; concrete types also through the checksum-verifying slice decoders; operation histories on one flavour object (IOReader over a guarded scratch buffer, Slice over a guarded input, one Deserializer decoding further values after a refused one) are checked against a model of slot positions; the same workload is interpreted by Miri (quick) and run under ASan and valgrind memcheck (thorough).",
          "Guard pages only see accesses that cross a page edge adjacent to the buffer; Miri covers the rest on a smaller workload. The allocation bound constant is justified in DESIGN 4 C04."),
- "C05": ("fault_enumeration", "4 C05", "capacity fault enumeration with guard pages, canaries, Miri (+ASan and valgrind memcheck in thorough)",
+ "C05": ("fault_enumeration", "4 C05", "capacity fault enumeration with guard pages, canaries, Miri (+ASan, valgrind memcheck and Miri i686 in thorough)",
          "For every sampled value the buffer-full fault is injected at every byte position (every capacity 0..L+2) for slice storage in plain/COBS/CRC framing and at a menu of const capacities for heapless storage; success iff capacity >= L, exact bytes, untouched tail, buffer-full error, canaries and guard pages intact, serialized_size == L; operation histories on one Slice flavour (writes after a refused write) under guard page and canary; one-shot and self-stamping values (non-idempotent Serialize impls) through every public entry point.",
          "Heapless capacities are a const-generic menu, not every integer."),
  "C06": ("exploration", "4 C06", "differential monitor against reference COBS; exhaustive short messages",
@@ -37,9 +37,9 @@ P = {
          "Streams with over-long segments and garbage across capacities N in 1..16 incl. N equal to, one less and one more than a frame; monitors: no panic, hook length <= N and empty after every zero, OverFull before the sentinel of an over-long segment, resync, bounded progress of the feed loop in logical steps.",
          "Termination is decided on logical step counts, never wall-clock."),
  "C10": ("fault_enumeration", "4 C10", "corruption fault enumeration against a bit-level reference CRC",
-         "Frames for five widths and ten catalogue algorithms are compared with a bit-at-a-time Rocksoft-model CRC (validated against each algorithm's published check value); every single-bit flip, every burst <= width at every offset (exhaustive for widths <= 16, sampled above), truncations and random damage are injected and the soundness invariant is checked on every accepted input.",
+         "Frames for five widths and ten catalogue algorithms are compared with a bit-at-a-time Rocksoft-model CRC (validated against each algorithm's published check value); every single-bit flip, every burst <= width at every offset (exhaustive for widths <= 16, sampled above), truncations and random damage are injected and the soundness invariant is checked on every accepted input; the checksum flavour is also stacked on the std and embedded-io reader flavours with exactly sized scratch buffers, and the crate-level crc32 wrappers are exercised.",
          "Trusts the reference CRC (validated against published check values on every run)."),
- "C11": ("fault_enumeration", "4 C11", "I/O fault and schedule enumeration with guard pages, Miri (+ASan, valgrind memcheck, embedded-io 0.4 build in thorough)",
+ "C11": ("fault_enumeration", "4 C11", "I/O fault and schedule enumeration with guard pages, Miri (+ASan, valgrind memcheck, Miri i686, embedded-io 0.4 build in thorough)",
          "Instrumented readers/writers deliver data in 1-byte/random/whole pieces and fail, hit EOF or interrupt at every byte offset; scratch sizes 0..required+1; monitors: equivalence with slice path, exact consumption, disjoint in-order borrows inside scratch, returned remainder, prefix-only writes, flush; writers that refuse exactly one write (one-shot error at every offset, all-or-nothing bounded sink of every capacity) under ordinary values and text formatted piecewise through collect_str.",
          "embedded-io 0.4 is exercised only in the thorough tier (features are mutually exclusive, second build)."),
  "C12": ("exploration", "4 C12", "bound monitor over built-in and in-tree-derive MaxSize impls",
@@ -58,16 +58,16 @@ P = {
          "Keys of random trees x paths from both implementations and an independent tag-stream + FNV-1a implementation are compared; every single-node mutation whose documented stream differs must change the key.",
          "Needs the hook to run the private const hasher on run-time trees; Key::for_path::<T> is additionally exercised on corpus types."),
  "C17": ("exploration", "4 C17", "differential: dynamic codec vs static encoder vs serde_json",
-         "For random shapes and corpus types within the statement's restrictions, to_stdvec_dyn must equal the static bytes and from_slice_dyn must equal serde_json::to_value.",
+         "For random shapes and corpus types within the statement's restrictions, to_stdvec_dyn must equal the static bytes and from_slice_dyn must equal serde_json::to_value; names that differ only in case or in a raw-identifier prefix, nesting to depth 300. A lean workload is also interpreted by Miri for a 32-bit target (i686; stage miri32), where length prefixes are 32-bit varints. (thorough: pointer-sized integers inside the target range)",
          "serde_json's own Serializer is trusted as the JSON reference."),
  "C18": ("exploration", "4 C18", "totality monitor (catch_unwind, breadcrumbs, counting allocator) over random schemas x bytes x JSON",
-         "No panic/abort, allocation bound, and encode->decode->encode fixpoint are monitored for random schemas with hostile bytes and type-correct/near-miss/unrelated JSON.",
+         "No panic/abort, allocation bound, and encode->decode->encode fixpoint are monitored for random schemas with hostile bytes and type-correct/near-miss/unrelated JSON (near-miss includes numbers as decimal strings and respelt object keys). A lean workload is also interpreted by Miri for a 32-bit target (i686; stage miri32), where length prefixes are 32-bit varints. (thorough)",
          "Known design limitations are listed in known_findings.json and still reported as KNOWN-FINDING."),
  "C19": ("exploration", "4 C19", "totality + set-equality monitor for schema inspection helpers",
-         "to_pseudocode/Display/all_used_types under catch_unwind for random trees incl. Usize/Isize/Schema; the collected set is compared with an independent traversal; renderings must mention names.",
+         "to_pseudocode/Display/all_used_types under catch_unwind for random trees incl. Usize/Isize/Schema; the collected set is compared with an independent traversal; renderings must mention names; wide tuples (7..40 same-kind elements), path-like and case-variant names; is_prim totality.",
          "-"),
  "C20": ("exploration", "4 C20", "compositional differential: flavour stacks vs composed reference transforms",
-         "Outputs of storage x {plain, Cobs, Crc(5 widths), Crc-inside-Cobs} stacks are compared with reference COBS/CRC transforms of the reference encoding, layers are undone in reverse, and recording user flavours must see exactly the plain encoding.",
+         "Outputs of storage x {plain, Cobs, Crc(5 widths), Crc-inside-Cobs} stacks are compared with reference COBS/CRC transforms of the reference encoding, layers are undone in reverse, and recording user flavours must see exactly the plain encoding; exactly fitting heapless storage; one-shot and self-stamping values through every public entry point.",
          "Trusts reference COBS and CRC."),
 }
 
@@ -107,12 +107,14 @@ def main():
              "kind_free_text": "Rust worker: run-time serde model, reference encoder/decoder/COBS/CRC oracles, guard pages, counting allocator, breadcrumbs; also run under Miri and ASan"},
             {"name": "pcv_schema", "path": "/verif/harness/pcv_schema", "serves_properties": "C14 C15 C16 C17 C18 C19".split(),
              "kind_free_text": "Rust worker for postcard-schema / postcard-dyn monitors"},
+            {"name": "pcv_alloc", "path": "/verif/harness/pcv_alloc", "serves_properties": ["C14"],
+             "kind_free_text": "the C14 oracle linked against postcard-schema built with feature alloc and without use-std (stage alloc)"},
             {"name": "check", "path": "/verif/check", "serves_properties": sorted(P),
              "kind_free_text": "python3 orchestrator: builds from /repo's working tree, runs stages with watchdogs, turns worker deaths into verdicts via breadcrumbs, applies known_findings.json, writes evidence"},
         ],
         "checks": checks,
         "not_applicable": [{"property_id": pid, "reason": REASON_NOT_BUILT} for pid in sorted(P) if pid not in BUILT],
-        "notes": "Technique family: runtime monitoring and sanitizers. Verdicts are three-valued (exit 0 held / 1 violation / 2 inconclusive). VERIF_SEED seeds all random choices; enumerated sub-spaces do not depend on it. VERIF_STAGES=native,plain,miri,asan,memcheck,eio04 restricts stages (debugging aid). Confirmed property-breaking changes used to validate the checks are in /verif/seeded/ (100 changes, all detected; DESIGN.md section 15).",
+        "notes": "Technique family: runtime monitoring and sanitizers. Verdicts are three-valued (exit 0 held / 1 violation / 2 inconclusive). VERIF_SEED seeds all random choices; enumerated sub-spaces do not depend on it. VERIF_STAGES=native,plain,miri,miri32,asan,memcheck,eio04,alloc restricts stages (debugging aid). Confirmed property-breaking changes used to validate the checks are in /verif/seeded/ (140 changes from three waves of independent sub-agents, all detected; DESIGN.md section 15). tools_coverage.sh reports which source lines of /repo the workloads execute (coverage/).",
     }
     with open("/verif/MANIFEST.json", "w") as f:
         json.dump(m, f, indent=1)
